@@ -96,14 +96,16 @@ def run(res, rng, tier, model_ok, replay=None):
                                       "key": (b, lead, trail, threads, min_chunk) if n >= 2 else None})
             cases.append({"line": "vcd st %s %s %s" % (sarg, hdr.hex(), base.hex()), "expect": exp, "klass": "single-thread"})
         # production chunking on large bodies
-        for kb in ([16, 40, 200] if tier == "quick" else [16, 17, 33, 64, 200, 1024, 4096]):
+        # (2200 KiB with 2 threads: more than 1 MiB per thread, the size at which a loader might start to use more
+        # chunks than threads)
+        for kb in ([16, 40, 200, 2200] if tier == "quick" else [16, 17, 33, 64, 200, 1024, 2200, 4096]):
             nsteps = kb * 1024 // 40
             sigs = [gen.Sig("b", 1), gen.Sig("b", 16), gen.Sig("r"), gen.Sig("b", 5)]
             steps = []
             for k in range(nsteps):
                 steps.append((k * 5, [(0, "01xz"[k % 4]), (1, format((k * 2654435761) % 65536, "016b")),
                                       (3, gen.rand_bits(rng, 5, rng.choice([2, 4, 9])))] + ([(2, "%d.25" % k)] if k % 7 == 0 else [])))
-            for threads in ([2, 7, 16] if tier == "quick" else [2, 3, 4, 7, 8, 15, 16]):
+            for threads in ([2] if kb == 2200 else [2, 7, 16] if tier == "quick" else [2, 3, 4, 7, 8, 15, 16]):
                 line, exp, meta = gen.vcd_case(rng, "mt:%d:0" % threads, sigs, steps, False, ws="plain", regime="dense",
                                                pad=(rng.randint(0, 7), 1))
                 n = chunk_count(len(meta["body"]), threads, 8192)
